@@ -135,6 +135,23 @@ class IntervalBounds:
                 return self.ev(n.args[0], fn)
             if isinstance(f, ast.Attribute) and f.attr in ("random", "uniform") and isinstance(f.value, ast.Name) and f.value.id == "random":
                 return "P" if f.attr == "random" else "U"
+            if isinstance(f, ast.Name) and f.id in self.cls.module.funcs and not n.keywords and getattr(self, "_depth", 0) < 3:
+                # a helper function of the module: the weakest of its return expressions, its parameters bound to the arguments' bounds
+                h = self.cls.module.funcs[f.id]
+                if len(h.params) == len(n.args) and not any(isinstance(x, (ast.Assign, ast.AugAssign)) for x in ast.walk(h.node)):
+                    saved = dict(self.params)
+                    for p, a in zip(h.params, n.args):
+                        self.params[(h.name, p)] = self.ev(a, fn)
+                    self._depth = getattr(self, "_depth", 0) + 1
+                    try:
+                        out = None
+                        for r in [x for x in ast.walk(h.node) if isinstance(x, ast.Return) and x.value is not None]:
+                            v = self.ev(r.value, h)
+                            out = v if out is None else weaker(out, v)
+                    finally:
+                        self._depth -= 1
+                        self.params = saved
+                    return out if out is not None else "U"
             return "U"
         if isinstance(n, ast.IfExp):
             return weaker(self.ev(n.body, fn), self.ev(n.orelse, fn))
